@@ -288,3 +288,61 @@ CONTRACTS += [
                       ('the-other-entity-is-untouched', 'e1.start == old(e1).start and e1.length == old(e1).length')],
              note='two entities in order; the suffix-after pattern matches at the start of the text after the first one'),
 ]
+
+# ---- C12: add_to merges one candidate into the entities found so far (no ordering of the list is assumed)
+_E = lambda i: Rec(RT + 'extractor.py::ExtractResult', dict(start=Int(0), length=Int(1), text=Str(), type=Str(), data=Const(None), meta_data=Const(None)))
+_OV = lambda i: f'(not (d{i}.start > v.start + v.length - 1) and not (v.start > d{i}.start + d{i}.length - 1))'
+_CV = lambda i: (f'((v.start < d{i}.start and v.start + v.length >= d{i}.start + d{i}.length) or '
+                 f'(v.start <= d{i}.start and v.start + v.length > d{i}.start + d{i}.length))')
+_ANY_OV = ' or '.join(_OV(i) for i in range(3))
+_ANY_CV = ' or '.join(_CV(i) for i in range(3))
+CONTRACTS += [
+    Contract('c12.add_to.three_destinations', BMEX + 'add_to', ['C12'], unroll=8,
+             params=dict(self=Rec(DT + 'base_merged.py::BaseMergedExtractor', dict(config=Config(), options=Const(0))),
+                         d0=_E(0), d1=_E(1), d2=_E(2), v=_E(3), destinations=Expr('[d0, d1, d2]'), source=Expr('[v]'), text=Str()),
+             ensures=[('a-candidate-that-touches-nothing-is-appended',
+                       f'implies(not ({_ANY_OV}), len(result) == 4 and result[0] is d0 and result[1] is d1 and result[2] is d2 and result[3] is v)'),
+                      ('a-candidate-that-overlaps-an-entity-without-covering-any-is-dropped',
+                       f'implies(({_ANY_OV}) and not ({_ANY_CV}), len(result) == 3 and result[0] is d0 and result[1] is d1 and result[2] is d2)'),
+                      ('every-entity-the-candidate-covers-is-replaced-by-it',
+                       f'implies({_ANY_CV}, len([r for r in result if r is v]) == 1 and '
+                       + ' and '.join(f'(len([r for r in result if r is d{i}]) == (0 if {_CV(i)} else 1))' for i in range(3)) + ')')],
+             note='three existing entities in ANY order (the list is in arrival order, not text order) and one candidate, spans arbitrary'),
+]
+
+# a prefix modifier after leading white space: the widened entity starts AT the modifier ("  before 3pm" -> "before 3pm")
+CONTRACTS += [
+    Contract('c01.try_merge_modifier_token.leading_space', BMEX + 'try_merge_modifier_token', ['C01'],
+             params=dict(self=Rec(DT + 'base_merged.py::BaseMergedExtractor',
+                                  dict(config=Config(values=dict(check_both_before_after=Const(False))), options=Const(0))),
+                         a0=Int(0, 25), a1=Int(0, 25), a2=Int(0, 25), mod=Expr('letter_char(a0) + letter_char(a1) + letter_char(a2)'),
+                         ent=Word(1, 8), source=Expr('"  " + mod + " " + ent'),
+                         extract_result=Rec(RT + 'extractor.py::ExtractResult',
+                                            dict(start=Const(6), length=Expr('len(ent)'), text=Expr('ent'), type=Str(),
+                                                 data=Const(None), meta_data=Const(None))),
+                         pattern=Const('modifier_regex'), potential_ambiguity=Const(False)),
+             regex_env={'modifier_regex': {'count': 1, 'exact': True, 'assume': 'M.group() == mod'}},
+             ensures=[('the-modifier-is-merged', 'result'),
+                      ('the-widened-entity-starts-at-the-modifier-not-at-the-white-space-before-it',
+                       'extract_result.start == 2 and extract_result.length == 4 + len(ent)'),
+                      ('its-text-is-the-modifier-and-the-entity', 'extract_result.text == mod + " " + ent')],
+             note='layout: two blanks, a three-letter modifier word (letters symbolic), a blank, the entity; the modifier pattern matches exactly the modifier word'),
+]
+
+# a suffix modifier ("3 pm or later"): the absorbed text ends exactly at the end of the modifier, whatever white space precedes it
+_L3 = lambda p: f'letter_char({p}0) + letter_char({p}1) + letter_char({p}2)'
+CONTRACTS += [
+    Contract('c01.add_mod.suffix_absorbed', BMEX + 'add_mod', ['C01', 'C07'], modular=['id:c12.env.try_merge_modifier_token'],
+             params=dict(dict((f'{p}{k}', Int(0, 25)) for p in 'xyz' for k in range(3)),
+                         ent=Expr(_L3('x')), suf=Expr(_L3('y')), rest=Expr(_L3('z')),
+                         self=Rec(DT + 'base_merged.py::BaseMergedExtractor', dict(config=Config(), options=Const(0))),
+                         source=Expr('ent + "  " + suf + " " + rest'),
+                         e0=Rec(RT + 'extractor.py::ExtractResult', dict(start=Const(0), length=Const(3), text=Expr('ent'), type=Const('time'),
+                                                                        data=Const(None), meta_data=Const(None))),
+                         extract_results=Expr('[e0]')),
+             regex_env={'suffix_after_regex': {'mode': 'match', 'assume': 'M.start() == 0 and M.group() == suf'}},
+             ensures=[('the-entity-ends-exactly-at-the-end-of-the-suffix-modifier', 'e0.start == 0 and e0.length == 8'),
+                      ('its-text-is-the-entity-the-blanks-and-the-modifier', 'e0.text == ent + "  " + suf')],
+             note='layout: a three-letter entity, two blanks, a three-letter suffix modifier, a blank, other text (letters symbolic); '
+                  'the suffix pattern matches exactly the modifier word at the start of the text after the entity'),
+]
